@@ -212,9 +212,50 @@ pub fn configure(cmd: &mut Command, toks: &[&str]) -> String {
             let v = if v == "1" { "true" } else { "false" };
             if via == "env" {
                 cmd.env("DIVAN_SKIP_EXT_TIME", v);
+            } else if v == "true" && get("skflag") == Some("1") {
+                // the flag without a value means `true`; it goes last (see below)
             } else {
                 cmd.arg(format!("--skip-ext-time={v}"));
             }
+        }
+    }
+    // output/timer configuration (no builder call exists for the timer)
+    if let Some(v) = get("bf") {
+        if via == "env" {
+            cmd.env("DIVAN_BYTES_FORMAT", v);
+        } else if via != "builder" {
+            cmd.args(["--bytes-format", v]);
+        }
+    }
+    if let Some(v) = get("tm") {
+        if via == "env" {
+            cmd.env("DIVAN_TIMER", v);
+        } else if via != "builder" {
+            cmd.args(["--timer", v]);
+        }
+    }
+    // a command-line flag wins over its environment variable: give the
+    // variables of everything set on the command line some other value
+    if via == "cli" && get("envx") == Some("1") {
+        for (key, env, val) in [
+            ("o.sc", "DIVAN_SAMPLE_COUNT", "77"),
+            ("o.ss", "DIVAN_SAMPLE_SIZE", "9"),
+            ("o.th", "DIVAN_THREADS", "5"),
+            ("o.maxt", "DIVAN_MAX_TIME", "0.5"),
+            ("o.mint", "DIVAN_MIN_TIME", "0.25"),
+            ("o.items", "DIVAN_ITEMS_COUNT", "1"),
+            ("o.bytes", "DIVAN_BYTES_COUNT", "1"),
+            ("o.chars", "DIVAN_CHARS_COUNT", "1"),
+            ("o.cycles", "DIVAN_CYCLES_COUNT", "1"),
+            ("bf", "DIVAN_BYTES_FORMAT", if get("bf") == Some("binary") { "decimal" } else { "binary" }),
+            ("tm", "DIVAN_TIMER", if get("tm") == Some("tsc") { "os" } else { "tsc" }),
+        ] {
+            if get(key).is_some() {
+                cmd.env(env, val);
+            }
+        }
+        if let Some(v) = get("o.sk") {
+            cmd.env("DIVAN_SKIP_EXT_TIME", if v == "1" { "false" } else { "true" });
         }
     }
     if get("exact") == Some("1") {
@@ -222,6 +263,10 @@ pub fn configure(cmd: &mut Command, toks: &[&str]) -> String {
     }
     for f in all("f") {
         cmd.arg(unhex(f));
+    }
+    if via != "builder" && via != "env" && get("o.sk") == Some("1") && get("skflag") == Some("1") {
+        // after the positional filters: clap would take a following filter for the flag's value
+        cmd.arg("--skip-ext-time");
     }
     cmd.stdin(Stdio::null()).stdout(Stdio::piped()).stderr(Stdio::piped());
     act.to_string()
@@ -593,6 +638,18 @@ pub fn config(rng: &mut Rng, act: &str, paths: &[String], bench_mode: bool) -> V
                 c.push(format!("o.{k}={}", 1 + rng.below(1000)));
             }
         }
+    }
+    if rng.chance(1, 4) {
+        c.push(format!("bf={}", ["binary", "decimal"][rng.below(2) as usize]));
+    }
+    if via != "builder" && !bench_mode && rng.chance(1, 5) {
+        c.push(format!("tm={}", ["os", "tsc"][rng.below(2) as usize]));
+    }
+    if via == "cli" && rng.chance(1, 3) {
+        c.push("envx=1".into());
+    }
+    if via == "cli" && rng.chance(1, 2) {
+        c.push("skflag=1".into());
     }
     c
 }
